@@ -364,15 +364,134 @@ fn flatten_case(rng: &mut Rng, out: &mut Out) {
     }
 }
 
+/// Flat <-> spatial transitions made by connections instead of consecutive layers: a loop
+/// connection leading from a flattened spatial output back into a (multi-channel) spatial layer, a skip
+/// connection from a flat input into a multi-channel spatial input and one from a spatial
+/// input into a flat one. All layers are identities (1x1 unit kernels, unit matrices, linear)
+/// and the input holds 1..n, so every output element names the input element it came from:
+/// with add / mean accumulation the output must be an exact small multiple of 1..n in order.
+fn connection_case(rng: &mut Rng, out: &mut Out) {
+    use crate::refmodel::{RNet, Val};
+    let (c, h, w) = (rng.range(1, 4), rng.range(1, 5), rng.range(1, 5));
+    let n = c * h * w;
+    let ident = |n: usize| -> Vec<Vec<f32>> { (0..n).map(|i| (0..n).map(|j| if i == j { 1.0 } else { 0.0 }).collect()).collect() };
+    let ident_k = |c: usize| -> Vec<Vec<Vec<Vec<f32>>>> { (0..c).map(|f| (0..c).map(|ch| vec![vec![if ch == f { 1.0 } else { 0.0 }]]).collect()).collect() };
+    let spatial = |rng: &mut Rng, c: usize| -> (LCfg, P) {
+        match rng.range(0, 2) {
+            0 => (LCfg::Conv { filters: c, kernel: (1, 1), stride: (1, 1), padding: (0, 0), dilation: (1, 1), act: Act::Linear, dropout: None }, P::Kern(ident_k(c))),
+            1 => (LCfg::Deconv { filters: c, kernel: (1, 1), stride: (1, 1), padding: (0, 0), act: Act::Linear, dropout: None }, P::Kern(ident_k(c))),
+            _ => (LCfg::Pool { kernel: (1, 1), stride: (1, 1) }, P::None),
+        }
+    };
+    let dense = |n: usize| -> (LCfg, P) { (LCfg::Dense { n, act: Act::Linear, bias: false, dropout: None }, P::Dense { w: ident(n), b: None }) };
+    let acc = *rng.pick(&[Acc::Add, Acc::Mean, Acc::Add, Acc::Overwrite]);
+    // (a loop connection leaving a dense layer into a spatial one is refused by `loopback`: the
+    // declared shapes must be equal, so the only loop with a transition leaves a spatial
+    // layer whose output is flattened for the dense layer behind it)
+    let variant = *rng.pick(&[1usize, 1, 2, 3]);
+    let (cfg, params, what) = match variant {
+        0 | 1 => {
+            // spatial identity layers, then a dense identity; the loop leaves the last spatial
+            // layer, whose output is flattened
+            let depth = rng.range(1, 2);
+            let mut layers = Vec::new();
+            let mut params = Vec::new();
+            for _ in 0..depth {
+                let (l, p) = spatial(rng, c);
+                layers.push(l);
+                params.push(p);
+            }
+            let (l, p) = dense(n);
+            layers.push(l);
+            params.push(p);
+            if rng.bool() {
+                let (l, p) = dense(n);
+                layers.push(l);
+                params.push(p);
+            }
+            let outof = if variant == 0 { depth + rng.range(0, layers.len() - depth - 1) } else { depth - 1 };
+            let into = rng.range(0, depth - 1);
+            let mut cfg = NetCfg::plain(Sh::Sp(c, h, w), layers);
+            cfg.loops = vec![(outof, into, rng.range(1, 3), rng.chance(0.3))];
+            cfg.loopacc = acc;
+            (cfg, params, "loop")
+        }
+        2 => {
+            // flat input of c*r*r elements; dense (zero weights) to r*r, a 1x1 convolution to
+            // c channels, then a spatial identity whose input receives the flat network input
+            let r = rng.range(1, 4);
+            let n0 = c * r * r;
+            let zero: Vec<Vec<f32>> = (0..r * r).map(|_| vec![0.0; n0]).collect();
+            let spread: Vec<Vec<Vec<Vec<f32>>>> = (0..c).map(|_| vec![vec![vec![1.0]]]).collect();
+            let (l2, p2) = spatial(rng, c);
+            let (l3, p3) = dense(n0);
+            let layers = vec![LCfg::Dense { n: r * r, act: Act::Linear, bias: false, dropout: None }, LCfg::Conv { filters: c, kernel: (1, 1), stride: (1, 1), padding: (0, 0), dilation: (1, 1), act: Act::Linear, dropout: None }, l2, l3];
+            let params = vec![P::Dense { w: zero, b: None }, P::Kern(spread), p2, p3];
+            let mut cfg = NetCfg::plain(Sh::Flat(n0), layers);
+            cfg.skips = vec![(0, 2)];
+            cfg.skipacc = acc;
+            (cfg, params, "skip flat->spatial")
+        }
+        _ => {
+            // spatial input; the dense identity behind a spatial identity also receives the
+            // network input
+            let (l0, p0) = spatial(rng, c);
+            let (l1, p1) = dense(n);
+            let mut layers = vec![l0, l1];
+            let mut params = vec![p0, p1];
+            if rng.bool() {
+                let (l, p) = dense(n);
+                layers.push(l);
+                params.push(p);
+            }
+            let to = rng.range(1, layers.len() - 1);
+            let mut cfg = NetCfg::plain(Sh::Sp(c, h, w), layers);
+            cfg.skips = vec![(0, to)];
+            cfg.skipacc = acc;
+            (cfg, params, "skip spatial->flat")
+        }
+    };
+    out.key = format!("connection {} {}", what, cfg.describe());
+    let count = cfg.input.count();
+    let index: Vec<f32> = (0..count).map(|i| i as f32 + 1.0).collect();
+    let want: Vec<f64> = match guard(|| {
+        let r: RNet<f64> = RNet::plain(&cfg, &params);
+        r.forward(&Val::from_f32(cfg.input, &index)).outs.last().unwrap().d.clone()
+    }) {
+        Ok(v) => v,
+        Err(_) => {
+            out.count("connection_cases_skipped", 1);
+            return;
+        }
+    };
+    // with identities everywhere the expected output is a multiple of 1..n, in order
+    let factor = want[0];
+    if want.iter().enumerate().any(|(i, v)| *v != factor * (i as f64 + 1.0)) {
+        out.count("connection_cases_skipped", 1);
+        return;
+    }
+    match build(&cfg, Some(&params)).and_then(|net| guard(|| net.predict(&tensor_of(cfg.input, &index)))) {
+        Err(m) => out.viol("transition:connection-panic", format!("{} panicked: {}", out.key, short(&m, 200)), J::Null),
+        Ok(p) => {
+            let got = flat(&p);
+            if got.len() != want.len() || got.iter().zip(want.iter()).any(|(g, w)| *g as f64 != *w) {
+                out.viol(&format!("transition:connection-order:{}", what), format!("{}: identity layers on the input 1..{} must give {} x (1..{}) in row-major order, library gives {:?}", out.key, count, factor, count, &got[..got.len().min(12)]), J::f32s(&got));
+            }
+            out.count("connection_transitions", 1);
+            out.cover("connection_transition_kinds", format!("{} c{} acc {}", what, c.min(2), acc.name()));
+        }
+    }
+}
+
 impl Monitor for C08 {
     fn id(&self) -> &'static str {
         "C08"
     }
     fn gens(&self, tier: Tier) -> Vec<(&'static str, u64)> {
-        vec![("lattice", tier.pick(4320 * 150, 3 * 1440 * 1440)), ("sequences", tier.pick(75_000, 750_000)), ("large_extents", tier.pick(3_000, 60_000)), ("flat_sizes", 1100), ("large_flat_sizes", 1), ("flatten", tier.pick(15_000, 150_000))]
+        vec![("lattice", tier.pick(4320 * 150, 3 * 1440 * 1440)), ("sequences", tier.pick(75_000, 750_000)), ("large_extents", tier.pick(3_000, 60_000)), ("flat_sizes", 1100), ("large_flat_sizes", 1), ("flatten", tier.pick(15_000, 150_000)), ("connections", tier.pick(30_000, 300_000))]
     }
     fn rule(&self) -> &'static str {
-        "lattice: single conv/deconv/pool layers; axis 0 enumerates (extent 1..10, kernel 1..4, stride 1..3, padding 0..3, dilation 1..3) completely, axis 1 follows a covering walk over the same 1440 tuples; configurations invalid by the standard formulas are skipped (counted); for the others: the `inputs -> outputs` line of the network's Display == closed form (conv floor((i+2p-d(k-1)-1)/s)+1, deconv (i-1)s-2p+k, pool floor((i-k)/s)+1) == shape field and nesting of the tensors forward produces, and every weight/bias/kernel gradient of the hooked backward has the shape of its parameter. large_extents: single conv/deconv/pool layers (every third followed by a dense layer) with one extent from {31..33, 63..66, 127..130, 255..257}, 1..17 channels and filters, kernels 1..7, stride 1..5, padding 0..4, dilation 1..4, any activation - same checks. sequences: random networks of depth 1..5 with all transitions, every fourth with a feedback block. flat_sizes: EVERY flat size n = 1..1100 x {conv, deconv, pool}: accepted iff n is a perfect square, then read as 1 x r x r in row-major order (index-valued input through 1x1 identity layers); for squares up to 400 additionally through 1x1 identity convolutions with paddings (0,1), (1,0), (1,1), (0,2), (2,1): the r x r image must sit in row-major order inside its frame of zeros; network-level (dense(n) followed by the spatial layer) for n <= 150. large_flat_sizes: r*r + d for r in {4095..100003}, d in -3..3 (lengths beyond 2^24 that single precision cannot represent), layer level. flatten: spatial output into identity dense layer must arrive in row-major order."
+        "lattice: single conv/deconv/pool layers; axis 0 enumerates (extent 1..10, kernel 1..4, stride 1..3, padding 0..3, dilation 1..3) completely, axis 1 follows a covering walk over the same 1440 tuples; configurations invalid by the standard formulas are skipped (counted); for the others: the `inputs -> outputs` line of the network's Display == closed form (conv floor((i+2p-d(k-1)-1)/s)+1, deconv (i-1)s-2p+k, pool floor((i-k)/s)+1) == shape field and nesting of the tensors forward produces, and every weight/bias/kernel gradient of the hooked backward has the shape of its parameter. large_extents: single conv/deconv/pool layers (every third followed by a dense layer) with one extent from {31..33, 63..66, 127..130, 255..257}, 1..17 channels and filters, kernels 1..7, stride 1..5, padding 0..4, dilation 1..4, any activation - same checks. sequences: random networks of depth 1..5 with all transitions, every fourth with a feedback block. flat_sizes: EVERY flat size n = 1..1100 x {conv, deconv, pool}: accepted iff n is a perfect square, then read as 1 x r x r in row-major order (index-valued input through 1x1 identity layers); for squares up to 400 additionally through 1x1 identity convolutions with paddings (0,1), (1,0), (1,1), (0,2), (2,1): the r x r image must sit in row-major order inside its frame of zeros; network-level (dense(n) followed by the spatial layer) for n <= 150. large_flat_sizes: r*r + d for r in {4095..100003}, d in -3..3 (lengths beyond 2^24 that single precision cannot represent), layer level. flatten: spatial output into identity dense layer must arrive in row-major order. connections: the same transitions made by connections - a loop connection from a spatial layer whose output is flattened back into a spatial layer with 1..4 channels, a skip connection from a flat input into a multi-channel spatial input, one from a spatial input into a flat input - through identity layers on the input 1..n: the output must be the exact multiple of 1..n (in order) that the reference semantics of the connection give."
     }
     fn assumptions(&self) -> Vec<&'static str> {
         vec!["the Display output of Network is parsed black-box for the announced shapes", "harness built with overflow checks on"]
@@ -487,6 +606,7 @@ impl Monitor for C08 {
                 out.count("large_flat_sizes_x_layer_kinds", n_checked);
             }
             "flatten" => flatten_case(&mut rng, &mut out),
+            "connections" => connection_case(&mut rng, &mut out),
             _ => panic!("unknown generator {}", gen),
         }
         out
